@@ -285,13 +285,17 @@ def eval_case(case):
 # generators: one comparable key class per container
 
 def key_classes():
-    strs = st.one_of(st.sampled_from(gv.WORDS + ["k1", "k2", "k10", "K", "\xe9", "zz", "Zz", "_", "10", "9"]), gv.key_text(), st.text(max_size=6))
+    # families of distinct strings that some notion of "the same text" identifies (canonical equivalence, compatibility forms, case,
+    # case folding, surrounding blanks, digits of other scripts): a sort order must still tell them apart
+    alike = st.sampled_from(["caf\xe9", "cafe\u0301", "CAF\xc9", "cafe", "\u212b", "\xc5", "A\u030a", "\uff41", "a", "A", "\xdf", "ss", "SS", "\u017f", "s",
+                             "\ufb01", "fi", "1", "\uff11", "\u0661", "\xb9", "x ", "x", " x", "x\u200b", "\u1e9b\u0323", "\u1e9b", "\u0323", "\u01c4", "\u01c5", "\u01c6"])
+    strs = st.one_of(st.sampled_from(gv.WORDS + ["k1", "k2", "k10", "K", "\xe9", "zz", "Zz", "_", "10", "9"]), gv.key_text(), st.text(max_size=6), alike)
     nums = st.one_of(st.integers(-50, 50), st.integers(-2**65, 2**65), st.floats(allow_nan=False, allow_infinity=True), st.booleans(),
                      st.sampled_from([0, 8, 16, 24, 32, 3, 64, 1 << 61, (1 << 61) - 1, 2**61 - 1 + 8]))
     dates = gv.dates()
     naive = st.datetimes(min_value=datetime.datetime(1, 1, 2), max_value=datetime.datetime(9999, 12, 30))
     aware = st.tuples(naive, gv.tzinfos()).map(lambda t: t[0].replace(tzinfo=t[1]))
-    return [strs, strs, strs, nums, nums, gv.binaries(), dates, naive, aware]
+    return [strs, strs, alike, nums, nums, gv.binaries(), dates, naive, aware]
 
 
 def blueprints(max_leaves=14):
